@@ -322,6 +322,13 @@ Fixpoint register_agents (s : dstate) (l : list (Z * Z)) : R :=
   | (a, ad) :: r => bind (d_register_agent s a ad false) (fun s' => register_agents s' r)
   end.
 
+(* DiscoveryComputation._on_computation_removed catches the ValueError of Discovery.unregister_computation
+   (since the /repo fix for C27-stale-unpublication-kills-subscriber-thread): an un-publication naming
+   another agent than the one listed is stale, the entry is kept and nothing escapes the handler.
+   Written with projections so that state / messages / events of the result reduce. *)
+Definition catch_value_error (r : R) : R :=
+  (fst (fst (fst r)), snd (fst (fst r)), snd (fst r), match snd r with Some 4 => None | x => x end).
+
 (* DiscoveryComputation.on_message *)
 Definition disc_recv (s : dstate) (m : msg) : R :=
   match m with
@@ -330,7 +337,7 @@ Definition disc_recv (s : dstate) (m : msg) : R :=
   | MPubAgents l => register_agents s l
   | MUnpubAgent a => d_unregister_agent s a false
   | MPubComp c ag addr => d_register_computation s c (Some ag) addr false
-  | MUnpubComp c ag => d_unregister_computation s c ag false
+  | MUnpubComp c ag => catch_value_error (d_unregister_computation s c ag false)
   | MPubRep r ag true => d_register_replica s r ag false
   | MPubRep r ag false => d_unregister_replica s r ag false
   | MSubAgent _ _ | MSubComp _ _ | MSubRep _ _ => raise s 5     (* no handler: KeyError *)
